@@ -87,6 +87,9 @@ pub struct Gen {
     pub link_8: u32,
     defined: Vec<u32>,
     mentioned: Vec<u32>,
+    /// ids used as OpSwitch selectors while still undefined; a later typed value may take one of them as its
+    /// result id, so that the same selector is sized once as unknown and once by its type
+    early_selectors: Vec<u32>,
 }
 
 pub fn interesting_ids() -> &'static Vec<u32> {
@@ -110,7 +113,7 @@ pub fn interesting_ids() -> &'static Vec<u32> {
 
 impl Gen {
     pub fn new(start_id: u32) -> Gen {
-        Gen { next_id: start_id, types: TypeModel::new(), num_types: vec![], typed_values: vec![], lit: LitStyle::Marker, forces: vec![], max_variadic: 3, force_string: None, param_free: false, scatter: None, used_ids: Default::default(), link_8: 0, defined: vec![], mentioned: vec![] }
+        Gen { next_id: start_id, types: TypeModel::new(), num_types: vec![], typed_values: vec![], lit: LitStyle::Marker, forces: vec![], max_variadic: 3, force_string: None, param_free: false, scatter: None, used_ids: Default::default(), link_8: 0, defined: vec![], mentioned: vec![], early_selectors: vec![] }
     }
     pub fn fresh(&mut self) -> u32 {
         if let Some(state) = self.scatter {
@@ -453,9 +456,12 @@ impl Gen {
         } else {
             None
         };
+        let numeric_result = rtype.map(|t| self.num_types.iter().any(|(id, _)| *id == t)).unwrap_or(false);
         let rid = if has_rid {
             // now and then the definition of an id that earlier operands already mentioned (use before definition)
-            Some(if self.link_8 > 0 && !self.mentioned.is_empty() && rng.chance(1, 12) {
+            Some(if numeric_result && !ctx_literal && !self.early_selectors.is_empty() && rng.chance(1, 2) {
+                self.early_selectors.pop().unwrap()
+            } else if self.link_8 > 0 && !self.mentioned.is_empty() && rng.chance(1, 12) {
                 let i = rng.below(self.mentioned.len());
                 self.mentioned.swap_remove(i)
             } else {
@@ -468,7 +474,15 @@ impl Gen {
         if ri.opname == "Switch" {
             // choose the selector among typed values so that 64-bit case literals occur
             let usable: Vec<u32> = self.typed_values.iter().filter(|(id, _)| matches!(self.types.width(*id), Width::One | Width::Two)).map(|(id, _)| *id).collect();
-            let sel = if !usable.is_empty() && rng.chance(3, 4) { *rng.pick(&usable) } else { self.fresh() };
+            let sel = if !usable.is_empty() && rng.chance(3, 4) {
+                *rng.pick(&usable)
+            } else {
+                let f = self.fresh();
+                if self.early_selectors.len() < 8 {
+                    self.early_selectors.push(f);
+                }
+                f
+            };
             shell.ops.push(AOp::id(sel));
             shell.ops.push(AOp::id(self.fresh()));
             let n = match form {
